@@ -13,6 +13,8 @@ Not decided: closeness to rotating-sphere values for small f (a limit statement)
 Added after the seeding rounds (DESIGN.md 6.6-6.8):
  CTOR-ACCEPT / PIZZETTI.arms / HEIGHT.special / LIMIT  no rejection decided by the sign of w; the theorem on every equality-guarded degenerate arm (f = 0, w = 0);
             the height term at latitudes exactly 0 and +-90; the sphere arms are the f -> 0 limits of the general arms.
+Added after seeding rounds 5 and 6 and refactoring round 4 (DESIGN.md 6.10-6.12):
+ INHERIT, SOMIGLIANA.sphere, GATE.ellipsoid.
 """
 import ast
 import numpy as np
